@@ -33,6 +33,12 @@ type c15Case struct {
 	// drawn update/delete with the right revision): used on Badger where failed writes are a recorded finding
 	AllSucceed bool  `json:"all_succeed,omitempty"`
 	New        []WOp // first writes of the new leader
+	// FollowerSyncs: the node that will become leader exists from the start and, as a follower serving reads, adopts
+	// the old leader's read revision after these requests of Hist (same process, so not with a re-opened Badger)
+	FollowerSyncs []int `json:"follower_syncs,omitempty"`
+	// EagerWriters: goroutines that write through the new node the moment it reports itself leader (what request
+	// handlers do: check IsLeader, then write)
+	EagerWriters int `json:"eager_writers,omitempty"`
 }
 
 func genC15(t *rapid.T) interface{} {
@@ -61,6 +67,10 @@ func genC15(t *rapid.T) interface{} {
 	c.Compact = DrawBool(t, 25, "compact")
 	c.StopAt = rapid.IntRange(1, n).Draw(t, "stopAt")
 	c.Reopen = c.Engine == EngBadger && DrawBool(t, 70, "reopen")
+	if !c.Reopen && DrawBool(t, 50, "followerSyncs") {
+		c.FollowerSyncs = rapid.SliceOfN(rapid.IntRange(0, n), 1, 3).Draw(t, "syncs")
+	}
+	c.EagerWriters = rapid.SampledFrom([]int{0, 2, 4}).Draw(t, "eager")
 	for i := 0; i < 5; i++ {
 		op := genWOp(t, len(c.Keys))
 		if op.Kind != "create" {
@@ -133,10 +143,25 @@ func runC15(ci interface{}, st *CaseStats) error {
 	env := &SeqEnv{Eng: eng, KV: eng.KV, B: oldB, M: NewModel(), Keys: keys, Ctx: context.Background()}
 	env.Init = oldB.GetCurrentRevision()
 	env.LastRev = env.Init
+	// the future leader, as a follower of the old one
+	var newB backend.Backend
+	if len(c.FollowerSyncs) > 0 && !c.Reopen {
+		newB = backend.NewBackend(eng.KV, backend.Config{Prefix: Prefix, Identity: fmt.Sprintf("new-%d", c15Seq), WatchCacheSize: 256}, NopMetrics)
+		st.Label("new-leader-served-follower-reads-before")
+	}
+	syncAt := map[int]bool{}
+	for _, p := range c.FollowerSyncs {
+		syncAt[p] = true
+	}
 	nOK, nFail := 0, 0
 	for i, op := range c.Hist {
 		if i >= c.StopAt {
 			break
+		}
+		if newB != nil && syncAt[i] {
+			// what SyncReadRevision does on a follower before a read
+			newB.SetCurrentRevision(oldB.GetCurrentRevision())
+			_, _ = newB.Get(env.Ctx, &proto.GetRequest{Key: []byte(keys[0])})
 		}
 		if c.AllSucceed {
 			_, live := env.M.Live(keys[op.K%len(keys)])
@@ -200,9 +225,55 @@ func runC15(ci interface{}, st *CaseStats) error {
 		return Inconclusivef("scan: %v", err)
 	}
 	// new leader: a second backend over the same store, brought up through the real Campaign path
-	newB := backend.NewBackend(kv, backend.Config{Prefix: Prefix, Identity: fmt.Sprintf("new-%d", c15Seq), WatchCacheSize: 256}, NopMetrics)
+	if newB == nil {
+		newB = backend.NewBackend(kv, backend.Config{Prefix: Prefix, Identity: fmt.Sprintf("new-%d", c15Seq), WatchCacheSize: 256}, NopMetrics)
+	}
 	started := make(chan struct{}, 1)
-	le := leader.NewLeaderElection(newB, NopMetrics, func(context.Context) { started <- struct{}{} }, func() {})
+	// a request that arrives exactly while the election hands the initial revision to the backend: if the node already
+	// reports itself leader at that instant, the request is served (as a handler would) before the revision is set
+	var le leader.LeaderElection
+	var handoverRev uint64
+	var handoverServed bool
+	wrapped := &c15Backend{Backend: newB, beforeSet: func() {
+		if le != nil && le.IsLeader() {
+			r, err := newB.Create(context.Background(), &proto.CreateRequest{Key: []byte(fmt.Sprintf("%s/handover-%d", Prefix, c15Seq)), Value: []byte("h")})
+			if err == nil && r.Succeeded {
+				handoverServed, handoverRev = true, r.Header.Revision
+			}
+		}
+	}}
+	le = leader.NewLeaderElection(wrapped, NopMetrics, func(context.Context) { started <- struct{}{} }, func() {})
+	// request handlers check IsLeader() and then write: clients that hammer the node get through the moment it
+	// reports itself leader
+	type eagerRes struct {
+		w   int
+		rev uint64
+		ok  bool
+		err error
+	}
+	eager := make(chan eagerRes, c.EagerWriters)
+	stopEager := make(chan struct{})
+	for w := 0; w < c.EagerWriters; w++ {
+		go func(w int) {
+			for {
+				select {
+				case <-stopEager:
+					eager <- eagerRes{w: w}
+					return
+				default:
+				}
+				if le.IsLeader() {
+					r, err := newB.Create(context.Background(), &proto.CreateRequest{Key: []byte(fmt.Sprintf("%s/eager-%d-%d", Prefix, c15Seq, w)), Value: []byte("e")})
+					res := eagerRes{w: w, err: err}
+					if r != nil {
+						res.rev, res.ok = r.Header.Revision, r.Succeeded
+					}
+					eager <- res
+					return
+				}
+			}
+		}(w)
+	}
 	go le.Campaign()
 	// the sequencer spins: stop it when the case is over (the elector only needs the lock and the store)
 	defer StopBackend(newB)
@@ -213,6 +284,34 @@ func runC15(ci interface{}, st *CaseStats) error {
 	}
 	if !le.IsLeader() {
 		return Inconclusivef("elected but IsLeader()==false")
+	}
+	if handoverServed {
+		if handoverRev <= maxBefore {
+			close(stopEager)
+			return fmt.Errorf("the node reported itself leader before its revision was initialised: a write served at that instant was handed revision %d, the store already holds revisions up to %d", handoverRev, maxBefore)
+		}
+		env.M.ApplyPut(fmt.Sprintf("%s/handover-%d", Prefix, c15Seq), []byte("h"), handoverRev, true)
+	}
+	for w := 0; w < c.EagerWriters; w++ {
+		select {
+		case r := <-eager:
+			if r.err == nil && r.ok {
+				if r.rev <= maxBefore {
+					close(stopEager)
+					return fmt.Errorf("a write accepted the moment the node reported itself leader was handed revision %d, the store already holds revisions up to %d", r.rev, maxBefore)
+				}
+				// it is part of the store now
+				env.M.ApplyPut(fmt.Sprintf("%s/eager-%d-%d", Prefix, c15Seq, r.w), []byte("e"), r.rev, true)
+				if r.rev > env.LastRev {
+					env.LastRev = r.rev
+				}
+				WaitCommitted(newB, r.rev, 10*time.Second)
+				st.Label("eager-write-at-leadership-start")
+			}
+		case <-time.After(10 * time.Second):
+			close(stopEager)
+			return Inconclusivef("eager writer did not finish")
+		}
 	}
 	first := newB.GetCurrentRevision()
 	env.B = newB
@@ -264,6 +363,20 @@ func runC15(ci interface{}, st *CaseStats) error {
 	}
 	_ = proto.Event_PUT
 	return nil
+}
+
+// c15Backend lets the harness act at the instant the election sets the initial revision
+type c15Backend struct {
+	backend.Backend
+	beforeSet func()
+}
+
+// SetCurrentRevision implements backend.Backend
+func (b *c15Backend) SetCurrentRevision(rev uint64) {
+	if b.beforeSet != nil {
+		b.beforeSet()
+	}
+	b.Backend.SetCurrentRevision(rev)
 }
 
 func maxU64(a, b uint64) uint64 {
